@@ -330,7 +330,7 @@ def run_gen(item):
     """One generated class x its whole corpus."""
     e = _E
     res = {"evals": 0, "valid": 0, "rejected": 0, "rej_kinds": {}, "nan_skipped": 0, "distinct": 0, "viol": [], "nviol": 0,
-           "sample": None, "class_error": None, "check_types": None, "uninhabited": False}  # fmt: skip
+           "sample": None, "class_error": None, "check_types": None, "uninhabited": False, "unconfirmed": []}  # fmt: skip
     try:
         S, ts = _gen_class(item)
     except Exception as ex:
@@ -349,6 +349,13 @@ def run_gen(item):
     for vals in _gen_values(item, ts):
         res["evals"] += 1
         (status, kind), fails, nan, ser, o = _case_gen(S, ts, item, vals, decl)
+        if fails:
+            # a reported case must fail again on a freshly generated class (what replay will do)
+            S2, ts2 = _gen_class(item)
+            (st2, _k2), fails2, _n2, _s2, _o2 = _case_gen(S2, ts2, item, vals, decl)
+            if st2 != "valid" or not fails2:
+                res["unconfirmed"].append({"item": item, "value": vals, "first": [list(f) for f in fails[:3]], "second_status": st2})
+                fails = []
         if status == "rejected":
             res["rejected"] += 1
             res["rej_kinds"][kind] = res["rej_kinds"].get(kind, 0) + 1
@@ -434,7 +441,7 @@ def run_installed(item, case_fn=None):
     ver, S = _schemas()[name]
     specs = _fspecs(name)
     res = {"evals": 0, "valid": 0, "rejected": 0, "rej_kinds": {}, "nan_skipped": 0, "distinct": 0, "viol": [], "nviol": 0, "sample": None,
-           "failed_idx": [], "subsumed": 0}  # fmt: skip
+           "failed_idx": [], "subsumed": 0, "unconfirmed": []}  # fmt: skip
     if i is None:
         devs = [(None, [])]
     elif j is None:
@@ -457,6 +464,11 @@ def run_installed(item, case_fn=None):
     for idx, dev in devs:
         res["evals"] += 1
         (status, kind), fails, nan, ser = (case_fn or _inst_case)(name, dev)
+        if fails:
+            (st2, _k2), fails2, _n2, _s2 = (case_fn or _inst_case)(name, dev)
+            if st2 != "valid" or not fails2:
+                res["unconfirmed"].append({"schema": name, "deviation": dev, "first": [list(f) for f in fails[:3]], "second_status": st2})
+                fails = []
         if status == "rejected":
             res["rejected"] += 1
             res["rej_kinds"][kind] = res["rej_kinds"].get(kind, 0) + 1
@@ -569,7 +581,11 @@ def run_installed_family(pool, tier, names, seed, fname="run_installed"):
     return singles + pairs, list(res1) + list(res2), info
 
 
+UNCONFIRMED = []
+
+
 def _merge(total, r):
+    UNCONFIRMED.extend(r.get("unconfirmed", []))
     for k in ("evals", "valid", "rejected", "nan_skipped", "distinct", "nviol"):
         total[k] += r[k]
     for k, v in r["rej_kinds"].items():
@@ -608,6 +624,7 @@ def _finalise_sigs(viols):
 
 def run(tier, seed):
     t0 = time.time()
+    del UNCONFIRMED[:]
     total = {"evals": 0, "valid": 0, "rejected": 0, "nan_skipped": 0, "distinct": 0, "nviol": 0, "rej_kinds": {}}
     viols = []
     samples = []
@@ -700,8 +717,10 @@ def run(tier, seed):
         "installed_pairs_subsumed_by_failing_single": subsumed,
         "wall_s_generated": round(t_gen, 1),
         "hangs": hangs,
+        "unconfirmed_failures": len(UNCONFIRMED),
+        "unconfirmed_examples": UNCONFIRMED[:5],
         "samples": pick(samples, 12) + pick(inst_samples, 4),
-        "exhaustive": hangs == 0,
+        "exhaustive": hangs == 0 and not UNCONFIRMED,
         "rule": (
             "grammar T ::= atom | Optional[T] | List[T] | Set[T] | Union[T,T]; atoms = " + " ".join(G.ATOMS) + "; depth(atom)=1. "
             "All types of depth<=2 (every atom, Optional/List/Set of every atom, Union of every ORDERED pair of distinct atoms) x constants "
@@ -718,6 +737,8 @@ def run(tier, seed):
         ),
         "wall_s_internal": round(time.time() - t0, 1),
     }
+    for u in UNCONFIRMED[:10]:
+        print("UNCONFIRMED (failed once, passed when repeated on a fresh class; not reported):", json.dumps(u, default=str)[:1500])
     return {
         "level": "exploration",
         "coverage": cov,
